@@ -338,7 +338,7 @@ func diff(a, b string, metadata []jd.Metadata) (string, bool, error) {
 	switch *format {
 	case "", "jd":
 		str = diff.Render(renderOptions...)
-		if str != "" {
+		if len(diff) > 0 {
 			haveDiff = true
 		}
 	case "patch":
@@ -346,7 +346,7 @@ func diff(a, b string, metadata []jd.Metadata) (string, bool, error) {
 		if err != nil {
 			return "", false, err
 		}
-		if str != "[]" {
+		if len(diff) > 0 {
 			haveDiff = true
 		}
 	case "merge":
@@ -354,7 +354,7 @@ func diff(a, b string, metadata []jd.Metadata) (string, bool, error) {
 		if err != nil {
 			return "", false, err
 		}
-		if str != "{}" {
+		if len(diff) > 0 {
 			haveDiff = true
 		}
 	default:
@@ -394,7 +394,7 @@ func diffV2(a, b string, options []v2.Option) (string, bool, error) {
 	switch *format {
 	case "", "jd":
 		str = diff.Render(renderOptions...)
-		if str != "" {
+		if len(diff) > 0 {
 			haveDiff = true
 		}
 	case "patch":
@@ -402,7 +402,7 @@ func diffV2(a, b string, options []v2.Option) (string, bool, error) {
 		if err != nil {
 			return "", false, err
 		}
-		if str != "[]" {
+		if len(diff) > 0 {
 			haveDiff = true
 		}
 	case "merge":
@@ -410,7 +410,7 @@ func diffV2(a, b string, options []v2.Option) (string, bool, error) {
 		if err != nil {
 			return "", false, err
 		}
-		if str != "{}" {
+		if len(diff) > 0 {
 			haveDiff = true
 		}
 	default:
